@@ -1,4 +1,5 @@
 import CkbVerif.Lemmas.Rules
+import CkbVerif.Lemmas.RulesChain
 
 /-!
 # C03 — a block joins the main chain iff it meets every consensus rule in its context
@@ -28,9 +29,12 @@ What is proved here, for all blocks, contexts and configurations (no bounds):
   if it passed the header and non-contextual stages and it and every unverified block of its
   branch passed the contextual stage in the context of their own parent chains; an attempt whose
   branch contains a block failing its contextual check is refused whatever is built on it.
-* `marked_invalid_witness` — the model follows the code in marking a hash `BLOCK_INVALID` when a
-  body delivered under it fails the non-contextual stage, also when that hash is already attached
-  (finding F14): a concrete reachable state in which a fully valid, heaviest child is refused.
+* `redelivery_of_attached_is_noop` — the repaired pipeline: an attached hash delivered again with
+  any body changes nothing; `marked_invalid_prefix_witness` — the pipeline before the repair
+  (`redeliveryGuard := false`) marked the attached hash invalid and then refused its valid child (F14).
+* `main_chain_blocks_passed_all_stages_partial` — by induction over arbitrary submission histories:
+  every main-chain block passed the header, non-contextual and contextual stages in the context of
+  its own ancestors (for histories without two bodies under one hash).
 -/
 namespace CkbVerif.C03
 open CkbVerif.Rules CkbVerif.Window
@@ -287,14 +291,84 @@ example : (submit cfg0 s3 200 (mk 4 3 3 104)).2 = .rejected .invalidDao ∧
 /-- the honest branch still grows -/
 example : (submit cfg0 s3 200 (mk 5 2 3 104)).2 = .attached := by decide
 
-/-- Finding F14 reproduced in the model (which follows `chain_service.rs` here): delivering the
-attached tip's hash with a body that fails the non-contextual stage marks that hash invalid, and
-the next fully valid, heaviest block is then refused as the child of an invalid parent. -/
-theorem marked_invalid_witness :
+/-- **Repaired pipeline (F13/F14 fixed in `chain_service.rs`)**: delivering a hash that is already
+attached again — with ANY accompanying body, at any time — changes nothing at all: not the stored
+blocks, the tip, the verified set nor the invalid marks; the answer is `Ok(false)` (or the header
+stage's refusal when the clock makes the header too new). -/
+theorem redelivery_of_attached_is_noop (cfg : Cfg) (hg : cfg.redeliveryGuard = true) (s : St) (now : Nat)
+    (b : Blk) (hv : b.id ∈ s.verified) :
+    (submit cfg s now b).1 = s ∧
+    ((submit cfg s now b).2 = .known ∨ ∃ e, headerCheck cfg (headerCxOf cfg s.stored now b) b = some e ∧
+      (submit cfg s now b).2 = .rejected e) := by
+  unfold submit
+  cases hH : headerCheck cfg (headerCxOf cfg s.stored now b) b with
+  | some e => exact ⟨rfl, Or.inr ⟨e, rfl, rfl⟩⟩
+  | none =>
+    simp [hg, hv]
+
+/-- the attached tip delivered again with a body that fails the non-contextual stage: nothing
+happens, and the next valid block is attached -/
+example :
     let bad : Blk := { mk 2 1 2 102 with nCellbase := 0 }
-    let sBad := (submit cfg0 s2 200 bad).1
-    (submit cfg0 s2 200 bad).2 = .rejected .cbQuantity ∧ sBad.tip = 2 ∧ sBad.verified.contains 2 = true ∧
-    (submit cfg0 sBad 200 (mk 5 2 3 104)).2 = .rejected .parentInvalid ∧
-    (submit cfg0 s2 200 (mk 5 2 3 104)).2 = .attached := by decide
+    (submit cfg0 s2 200 bad).2 = .known ∧ (submit cfg0 s2 200 bad).1.invalid = [] ∧
+    (submit cfg0 (submit cfg0 s2 200 bad).1 200 (mk 5 2 3 104)).2 = .attached := by decide
+
+/-- **Finding F14 as it was before the repair** (`redeliveryGuard := false` = the old
+`chain_service.rs`): delivering the attached tip's hash with a body that fails the non-contextual
+stage marks that hash invalid, and the next fully valid, heaviest block is then refused as the
+child of an invalid parent. -/
+theorem marked_invalid_prefix_witness :
+    let old : Cfg := { cfg0 with redeliveryGuard := false }
+    let bad : Blk := { mk 2 1 2 102 with nCellbase := 0 }
+    let sBad := (submit old s2 200 bad).1
+    (submit old s2 200 bad).2 = .rejected .cbQuantity ∧ sBad.tip = 2 ∧ sBad.verified.contains 2 = true ∧
+    (submit old sBad 200 (mk 5 2 3 104)).2 = .rejected .parentInvalid ∧
+    (submit old s2 200 (mk 5 2 3 104)).2 = .attached := by decide
+
+/-! ## the multi-step statement -/
+
+/-- **Every main-chain block passed all three stages in the context of its own ancestor chain**,
+after any history of submissions (valid, invalid, side branches, failed attempts, re-deliveries)
+starting from the genesis block — for histories in which no hash is delivered with two different
+bodies (`OneBody`).
+
+`_partial`: the full statement drops `OneBody`. It is false for the code as it is: a stored, not
+yet verified block re-delivered under the same header with other uncles / extension has its body
+rows overwritten (`insert_block`), so what is later verified is the second body — harmless for this
+statement's conclusion (the verified body is the stored one) but outside the model, whose stored
+blocks are immutable; the harness scenario `f15` decides what that does on the real node. -/
+theorem main_chain_blocks_passed_all_stages_partial (cfg : Cfg) (g : Blk) (hg0 : g.number = 0)
+    (ops : List (Nat × Blk)) (hob : OneBody (g :: ops.map (·.2))) :
+    let s := run cfg (St.init g) ops
+    ∀ x ∈ mainChain s, x.number ≠ 0 →
+      ∃ p, findBlk s.stored x.parent = some p ∧ p ∈ mainChain s ∧
+        (∃ now, headerCheck cfg (headerCxOf cfg s.stored now x) x = none) ∧
+        nonContextualCheck cfg x = none ∧
+        contextualCheck cfg (cxOf s.stored p) x = none := by
+  intro s x hx h0
+  have hi : Inv cfg g (g :: ops.map (·.2)) s :=
+    inv_run hob ops _ (inv_init cfg g _ (by simp) hg0) (by
+      intro o ho
+      exact List.mem_cons_of_mem _ (List.mem_map_of_mem ho))
+  unfold mainChain at hx ⊢
+  cases ht : findBlk s.stored s.tip with
+  | none => simp [ht] at hx
+  | some t =>
+    simp only [ht] at hx ⊢
+    have htid : t.id = s.tip := (findBlk_some ht).2
+    have htf : findBlk s.stored t.id = some t := by rw [htid]; exact ht
+    have hxs := ancestors_mem _ _ _ hx
+    have hxv := ancestors_verified hi (t.number + 1) t.id (htid ▸ hi.tipVer) x hx
+    obtain ⟨p, hp, _, hc⟩ := hi.good x hxs hxv h0
+    obtain ⟨hh, hn⟩ := hi.early x hxs h0
+    obtain ⟨q, hq, hqm⟩ := ancestors_parent_mem hi.closed (t.number + 1) t.id t htf (by omega) x hx h0
+    rw [hp] at hq
+    exact ⟨p, hp, (Option.some.inj hq) ▸ hqm, hh, hn, hc⟩
+
+/-- non-vacuity: the history of `s3` plus the refused attempt and the honest continuation -/
+example :
+    let ops : List (Nat × Blk) := [(200, mk 1 0 1 101), (200, mk 2 1 2 102), (200, { mk 3 1 2 103 with daoEq := false }),
+      (200, mk 4 3 3 104), (200, mk 5 2 3 104)]
+    (mainChain (run cfg0 (St.init g0) ops)).map (·.id) = [5, 2, 1, 0] := by decide
 
 end CkbVerif.C03
